@@ -61,6 +61,11 @@ LeafTable ==
     arrobj |-> L(("type" :> <<"array">>) @@ ("items" :> (("type" :> <<"object">>) @@ ("properties" :> <<[k |-> "k", s |-> Int_]>>)
                                                         @@ ("required" :> <<"k">>))),
                  <<JArr(<<>>), JArr(<<JObj(<<>>)>>), JArr(<<ObjK(JNum(0))>>), JArr(<<ObjK(SA)>>)>>, JArr(<<ObjK(JNum(0))>>)),
+    \* items that are NULLABLE objects with a required key
+    arrnobj |-> L(("type" :> <<"array">>) @@ ("items" :> (("type" :> <<"object", "null">>) @@ ("properties" :> <<[k |-> "k", s |-> Int_]>>)
+                                                        @@ ("required" :> <<"k">>))),
+                 <<JArr(<<>>), JArr(<<JObj(<<>>)>>), JArr(<<ObjK(JNum(0))>>), JArr(<<ObjK(JNum(0)), JObj(<<>>)>>), JArr(<<ObjK(SA)>>),
+                   JArr(<<ObjK(JNum(4)), JNull>>)>>, JArr(<<ObjK(JNum(0))>>)),
     obj    |-> L(("type" :> <<"object">>) @@ ("properties" :> <<[k |-> "j", s |-> Str_],
                                                                 [k |-> "k", s |-> ("type" :> <<"integer">>) @@ ("minimum" :> JNum(4))]>>)
                  @@ ("required" :> <<"k">>),
